@@ -519,7 +519,8 @@ def _explore(out, tier, seed, facts, replay):
                      ["verif", fn, "-m", "mae", "-T", "1.5"], ["verif", fn, "-m", "mae", "-dpi", "abc"], ["verif", fn, "-m", "mae", "-fcst", "threshold:"],
                      ["verif", fn, "-m", "mae", "-fcst", "threshold"], ["verif", fn, "", "-m", "mae"],
                      ["verif", fn, "-m", "obsfcst", "-type", "nosuchtype"], ["verif", fn, "-m", "mae", "-xlim", "5"], ["verif", fn, "-m", "mae", "-ylim", "1,2,3"],
-                     ["verif", fn, "-m", "mae", "-fs", "a,b"], ["verif", fn, "-m", "mae", "-fs", "5"], ["verif", fn, "-m", "mae", "-aspect", "0"]):
+                     ["verif", fn, "-m", "mae", "-fs", "a,b"], ["verif", fn, "-m", "mae", "-fs", "5"], ["verif", fn, "-m", "mae", "-aspect", "0"],
+                     ["verif", fn, "-m", "mae", "-f", os.path.join(tmp, "no_such_directory", "out.csv")], ["verif", fn, "-m", "mae", "-f", tmp]):      # an output path that cannot be written
             signal.alarm(20)
             try:
                 r = run_cli(argv + ["-type", "csv"] if "-type" not in argv else argv)
